@@ -185,3 +185,12 @@ class VPairProbe(FloatProbe):
     def _process_logic(self, data, a: float, b: float = 1.0):
         CALL_LOG.append(("VPairProbe", data.data, a, b))
         return float(1000 * data.data + 10 * a + b)
+
+
+class VInterruptOperation(FloatOperation):
+    """Identity unless `trigger` > 0, then raises KeyboardInterrupt (operator interrupt)."""
+
+    def _process_logic(self, data, trigger: float = 0.0):
+        if trigger and float(trigger) > 0:
+            raise KeyboardInterrupt()
+        return FloatDataType(data.data)
